@@ -733,6 +733,15 @@ class Engine(object):
             st.assume(self._pending_facts.pop(0))
 
     def compare(self, ctx, st, op, a, b):
+        if ctx.spec and isinstance(op, (ast.Eq, ast.NotEq, ast.Is, ast.IsNot)):
+            # an ill-typed comparison in a contract would silently be the constant False / True (vacuity hazard)
+            ta, tb = a.ty, b.ty
+            dyn = (NONE, VAL, CLS, ANYFUNC)
+            if ta not in dyn and tb not in dyn and not isinstance(a.z, tuple) and not isinstance(b.z, tuple):
+                num = (INT, BOOL, FLOAT, REAL)
+                bad = (is_reflike(ta) != is_reflike(tb)) or (ta in num and tb in (STR, BYTES)) or (tb in num and ta in (STR, BYTES))
+                if bad:
+                    raise Unsupported('ill-typed comparison in a specification: %r with %r' % (ta, tb))
         if isinstance(op, ast.Eq):
             return self.equal(st, a, b)
         if isinstance(op, ast.NotEq):
@@ -912,6 +921,16 @@ class Engine(object):
             for i, t in enumerate(ty.elems):
                 if is_reflike(t) or isinstance(t, TupleT):
                     self.ref_fact(st, t, srt.accessor(0, i)(z))
+            return
+        if ty == VAL and not isinstance(z, tuple):
+            # an object identity held in a dynamically typed slot denotes an allocated object (None is vnone, never vref(0))
+            st.assume(z3.Implies(Val.is_vref(z), z3.And(Val.rval(z) > 0, Val.rval(z) < st.alloc + st.nalloc)))
+            if key is not None:
+                arr, bound = st.base_of(key)
+                t = arr
+                for i in path:
+                    t = z3.Select(t, i)
+                st.assume(z3.Implies(Val.is_vref(t), z3.And(Val.rval(t) > 0, Val.rval(t) < bound)))
             return
         if is_reflike(ty):
             st.assume(z3.And(z >= 0, z < st.alloc + st.nalloc))
@@ -1460,6 +1479,12 @@ class Engine(object):
             self.safe(ctx, st, z3.And(Val.is_vref(obj.z), self.typeis(st, Val.rval(obj.z), 'PySlice')), 'AttributeError', 'slice attribute of a non-slice')
             st.assume(Val.rval(obj.z) > 0)       # vref(0) does not exist: None is vnone (to_val)
             return self.read_field(ctx, st, SV(Ref('PySlice'), Val.rval(obj.z)), attr)
+        if t == VAL and attr in self.opts.get('val_attr_class', {}):
+            # a dynamically typed slot used as an object of a known class (anything else has no such attribute)
+            cls = self.opts['val_attr_class'][attr]
+            self.safe(ctx, st, z3.And(Val.is_vref(obj.z), self.isinst(st, Val.rval(obj.z), cls)), 'AttributeError', 'attribute %s of a non-%s' % (attr, cls))
+            st.assume(Val.rval(obj.z) > 0)
+            return self.get_attr(ctx, st, SV(Ref(cls), Val.rval(obj.z)), attr)
         if t == VAL:
             return SV(ANYFUNC, ('bound', obj, attr))
         if isinstance(t, TupleT):
@@ -1687,6 +1712,10 @@ class Engine(object):
                                                          z3.Select(idx, z3.Select(inv, jv)) == jv)),
                                  patterns=[z3.Select(arr, jv), z3.Select(inv, jv)]))
             self.list_set_raw(st1, r, m, rarr)
+            # the index maps are ghosts of the result list (definitional: contracts may speak about them, see lc_idx / lc_inv)
+            ai = z3.ArraySort(z3.IntSort(), z3.IntSort())
+            self.set_ghost(st1, 'lc_idx', ai, r.z, idx)
+            self.set_ghost(st1, 'lc_inv', ai, r.z, inv)
             yield st1, r
 
     def ev_Lambda(self, e, st, ctx):
